@@ -66,6 +66,63 @@ def raw_attrs(path):
     return out
 
 
+def in_memory_leg(ctx, tmp):
+    """Datasets assembled in memory (a post-processing script): the time coordinate carries the units it is to be stored with
+    and nothing else - no stored dtype - and its records do not fall on whole units, so xarray stores fractions.  Saved through
+    the convention, no variable gains a fill value, the units have the EMS form and the instants are the same."""
+    rng = ctx.rng
+    n = 6 if ctx.tier == 'quick' else 40
+    for k in range(n):
+        fam = gen.FAMILIES[k % len(gen.FAMILIES)]
+        d = gen.any_dataset(rng, fam)
+        ds = d.ds
+        tname = gen.TIME_NAMES.get(d.family, 'time')
+        step_h, unit = [(6, 'days'), (1, 'days'), (12, 'days'), (30, 'hours')][k % 4]
+        nt = rng.randint(2, 4)
+        off = rng.choice(['+10:00', '-09:30', '+05:30', '+00:00', '-03:00'])
+        base = numpy.datetime64('1990-01-01T00:00:00', 'ns')
+        step = numpy.timedelta64(step_h * 60 if unit == 'days' else step_h, 'm')
+        tvals = base + numpy.arange(nt) * step + numpy.timedelta64(rng.choice([0, 90]), 'm')
+        tda = xarray.DataArray(tvals, dims=['record'], attrs={'standard_name': 'time', 'long_name': 'Time'})
+        tda.encoding['units'] = f'{unit} since 1990-01-01 00:00:00 {off}'
+        ds = ds.assign_coords({tname: tda})
+        gdims = list(d.spec['kinds']['face'])
+        shape = [nt] + [ds.sizes[g] for g in gdims]
+        ds['series'] = xarray.DataArray(numpy.arange(int(numpy.prod(shape)), dtype='f8').reshape(shape) + 0.5, dims=['record'] + gdims)
+        ds['elapsed'] = xarray.DataArray(numpy.arange(nt) * numpy.timedelta64(90, 'm'), dims=['record'])
+        case = {'dataset': d.spec['label'], 'in_memory': True, 'time_units': tda.encoding['units'], 'step': str(step),
+                'instants': [str(x) for x in tvals]}
+        had_fill = {str(v) for v in ds.variables if '_FillValue' in ds[v].attrs or ds[v].encoding.get('_FillValue') is not None}
+        ctx.count(f'in_memory:{d.family}:{unit}')
+        ctx.case((d.spec['label'], 'in memory', unit, step_h), True)
+        path = os.path.join(tmp, f'mem_{k}.nc')
+        with warnings.catch_warnings():
+            warnings.simplefilter('ignore')
+            r = attempt(lambda: ds.ems.to_netcdf(path))
+        if r[0] != 'ok':
+            ctx.report('property', f'ems.to_netcdf of a dataset assembled in memory failed: {r[1]}', case)
+            continue
+        ra = raw_attrs(path)
+        gained = sorted(v for v, a in ra.items() if '_FillValue' in a and v not in had_fill)
+        if gained:
+            ctx.report('property', f'saved variables {gained} carry a _FillValue the dataset did not have', case)
+            continue
+        u2 = ra.get(tname, {}).get('units')
+        if u2 is None or not SHAPE.match(str(u2)):
+            ctx.report('property', f'time units written as {u2!r}: not the EMS form', case)
+            continue
+        with warnings.catch_warnings():
+            warnings.simplefilter('ignore')
+            back = xarray.open_dataset(path)
+            got = back[tname].values.astype('datetime64[ns]')
+            back.close()
+        # the instants: the units name a local epoch, the decoded values are UTC instants either way
+        sign = 1 if off[0] == '+' else -1
+        off_min = sign * (int(off[1:3]) * 60 + int(off[4:6]))
+        if got.shape != tvals.shape or not (got == tvals).all():
+            ctx.report('property', f'time instants {tvals.tolist()} read back as {got.tolist()} (offset {off_min} minutes in the units)', case)
+
+
 def run(ctx):
     rng = ctx.rng
     quick = ctx.tier == 'quick'
@@ -437,6 +494,7 @@ def run(ctx):
             got = tc[1] if tc[0] == 'ok' else None
             if want != got:
                 ctx.report('correspondence', f'model time_coordinate = {want}, implementation {tc}', case, found_input=False)
+        in_memory_leg(ctx, tmp)
         fmodel = coq_eval_sharded(['Model.SaveFixes'], fix_exprs, shard=12, workers=6)
         ctx.leg('fill_value_fixups', len(fix_exprs))
         for (fcase, got, vnames), mres in zip(fix_plans, fmodel):
